@@ -119,3 +119,21 @@ Fixpoint twin_clash_from (seen : list bytes) (rs : list rec) : bool :=
   end.
 Definition twin_clash (bs : bytes) : bool :=
   match spec_records bs with Some rs => twin_clash_from [] rs | None => false end.
+
+(* executable oracle for "no invented data": all (expanded name, value) pairs
+   of records reachable from a bucket head by next links, read leniently
+   (entryAt), at most len/32+2 steps per bucket *)
+Fixpoint linked_from (fuel : nat) (sz : N) (bs : bytes) (hdr off : N) : list (bytes * N) :=
+  if off =? 0 then [] else
+  match fuel with
+  | O => []
+  | S f =>
+      match entry_at_sz sz bs hdr off with
+      | None => []
+      | Some (ename, next, v) => (decode_stack ename, v) :: linked_from f sz bs hdr next
+      end
+  end.
+Definition linked_pairs (bs : bytes) : list (bytes * N) :=
+  let sz := len bs in
+  let hl := get32 bs hdr_np in
+  flat_map (fun i => linked_from (walk_fuel_sz sz) sz bs hl (load32_sz sz bs (head_off hl i))) buckets.
